@@ -101,12 +101,21 @@ async function next_record(it, stream, what) {
     if (state.settled) return state;
     let idle_after_end = 0;
     let total_turns = 0;
+    // a stream over a real file delivers its chunks when the operating system has read them: event-loop turns are no measure of that (on a loaded
+    // machine one 64 KiB read can outlast tens of thousands of idle turns), so the turn budget applies to the in-memory streams only; a file stream
+    // is waited for until it has ended (plus the idle turns), under a generous wall-clock watchdog of its own
+    let real_io = stream instanceof fs.ReadStream;
+    let t0 = Date.now();
     while (!state.settled) {
         await turns(1);
         total_turns += 1;
         if (stream.ended || stream.destroyed) idle_after_end += 1;
         if (idle_after_end > 200) break;
-        if (total_turns > 20000 + 50 * (stream.total_chunks || 0)) break;   // e.g. the stream was paused and never resumed
+        if (!real_io && total_turns > 20000 + 50 * (stream.total_chunks || 0)) break;   // e.g. the stream was paused and never resumed
+        if (real_io && total_turns % 1000 == 0) {
+            if (Date.now() - t0 > 120000) break;
+            await new Promise((resolve) => setTimeout(resolve, 1));                      // let the IO make progress instead of spinning
+        }
     }
     if (!state.settled) state.stuck = true;
     return state;
